@@ -296,7 +296,29 @@ def run(ctx):
     mfrom = ("field", MV, "from")
     promo = ("field", MV, "promotion")
     n_true = n_false = 0
+
+    class _P:       # a path whose returned test has been turned into a last decision
+        def __init__(self, conds, ret):
+            self.conds, self.ret = conds, ret
+
+    def as_decision(r_):
+        """a returned boolean test about the piece kind, the destination rank or the promotion -> (test, polarity)"""
+        pol = 1
+        while r_[0] == "un" and r_[1] == "Not":
+            r_, pol = r_[2], 1 - pol
+        if r_[0] == "bin" and r_[1] in ("Eq", "Ne") and (set((r_[2], r_[3])) == {PAWN, Pc} or promo in (r_[2], r_[3]) or ("discr", promo) in (r_[2], r_[3])):
+            return r_, pol
+        return None
+    expanded = []
     for p in hps:
+        d_ = as_decision(p.ret) if p.ret not in (sym.TRUE, sym.FALSE) and p.ret is not None else None
+        if d_ is not None:
+            # `..; piece == Pawn` as the tail expression reads like `if piece == Pawn { true } else { false }`
+            expanded.append(_P(list(p.conds) + [(d_[0], d_[1])], sym.TRUE))
+            expanded.append(_P(list(p.conds) + [(d_[0], 1 - d_[1])], sym.FALSE))
+        else:
+            expanded.append(p)
+    for p in expanded:
         pawn = rank = st = pk = feq = hto = None
         excl = set()
         for c in p.conds:
@@ -314,8 +336,8 @@ def run(ctx):
                     pk = PIECES[v]
                 else:
                     excl |= {PIECES[x] for x in v[1] if x < 6}
-            elif e[0] == "bin" and e[1] == "Eq" and set((e[2], e[3])) == {Fr_(), mfrom}:
-                feq = bool(v)
+            elif e[0] == "bin" and e[1] in ("Eq", "Ne") and set((e[2], e[3])) == {Fr_(), mfrom} and isinstance(v, int):
+                feq = (e[1] == "Eq") == bool(v)
             elif e == ("has", To, mto):
                 hto = bool(v)
             elif e[0] == "bin" and e[1] in ("Eq", "Ne") and (promo in (e[2], e[3]) or ("discr", promo) in (e[2], e[3]) or zob.payload(promo) in (e[2], e[3])
